@@ -66,6 +66,15 @@ func VerifC14History() {
 		want := make([]RequirementVersion, len(reqs))
 		copy(want, reqs)
 		lc.AddVersion(Version{VersionKey: vk, AttrSet: attrs}, reqs)
+		if vParam("midq") == 1 {
+			// queries between the additions: whatever the client remembers of its answers must not outlive
+			// the next addition
+			for vi := 0; vi < len(c14Vers); vi++ {
+				_, _ = lc.MatchingVersions(ctx, VersionKey{PackageKey: pk, VersionType: Requirement, Version: c14Vers[vi]})
+			}
+			_, _ = lc.Versions(ctx, pk)
+			_, _ = lc.Requirements(ctx, vk)
+		}
 		if !deleted {
 			SortDependencies(want)
 			model[vk] = &c14Entry{attrs: attrs.Clone(), reqs: want}
@@ -122,6 +131,7 @@ func VerifC14History() {
 			for _, m := range ms {
 				if m.VersionKey == vk {
 					found = true
+					vAssert(m.AttrSet.Equal(e.attrs), "a matched version carries the attributes of the most recent addition")
 				}
 			}
 			vAssert(found, "an exact requirement matches the added version")
